@@ -1038,8 +1038,9 @@ void AStarPathPrivate::search(ConnRef *lineRef, VertInf *src, VertInf *tar, Vert
                 {
                     EdgeInf *edge = *it;
                     VertInf *other = edge->otherVert(replacementTar);
-                    if ((other == tar) || 
-                            (other->point == tar->point))
+                    if ((other == tar) ||
+                            (other->point == tar->point) ||
+                            (other->point == replacementTar->point))
                     {
                         // Ignore edge we came from, or zero-length edges.
                         continue;
